@@ -14,7 +14,8 @@ RULE = ("generated literal interface family (as C01, without rpc/encoded) x ever
         "the reference skeleton and with the Lean builder model; objects filled from generated argument trees are "
         "sent and their request compared with the one the equivalent dict gives; unknown names (plain, qualified, "
         "dotted) must raise TypeNotFound; non-trivial = every (interface, rendering, name spelling) and every "
-        "filled-object request; distinct = distinct of those")
+        "filled-object request; distinct = distinct of those"
+        " ; plus streams: simpleContent types as required / optional / repeating children, element and type sharing a name, types derived by restriction, enumeration aliases, factory.separator, attribute order (canonical rendering), names spelled with the document's own prefix")
 ASSUMPTIONS = ["a name with a prefix the client does not know raises a plain Exception('prefix not resolved'), not "
                "TypeNotFound: unknown *prefixes* are outside the alphabet of unknown names",
                "factory objects of section-5 array types are outside the family",
